@@ -183,6 +183,11 @@ func compareOuts(pre, post *progen.Val, t *progen.T, p *progen.Program, where st
 		}
 		if !ok {
 			add("%s does not hold the content its producer wrote", strings.TrimPrefix(np, ps))
+		} else if d.Mode == 5 {
+			// a link to the first output's file: any file the producer wrote
+			if _, wrote := writtenFiles[ep]; !wrote {
+				add("%s holds the content of %s, which the producing stage did not write", strings.TrimPrefix(np, ps), ep)
+			}
 		} else if ep != want {
 			add("%s holds the content of %s, expected that of %s", strings.TrimPrefix(np, ps), ep, want)
 		}
@@ -226,8 +231,12 @@ func compareOuts(pre, post *progen.Val, t *progen.T, p *progen.Program, where st
 	}
 }
 
+// writtenFiles: the files the stage code of the current run wrote.
+var writtenFiles map[string]int64
+
 func outsOracle(d progen.OutsParams, p *progen.Program, res *Result) []string {
 	var out []string
+	writtenFiles = res.Written
 	if res.Err != "" {
 		return []string{"run error: " + res.Err}
 	}
